@@ -72,6 +72,8 @@ def explore_all(rep, harness, scenarios, bound, budget_per_scenario=None, dpoint
     exe = exe or build_harness(harness)
     descs = dict(list_scenarios(exe))
     scenarios = list(scenarios)
+    if budget_per_scenario:
+        budget_per_scenario = max(1, budget_per_scenario * float(os.environ.get("VERIF_DEADLINE_SCALE", "1")))
     if por and dpoints == 1:
         pb = por_budget or max(3, min(10, (budget_per_scenario or 30) / 3.0))
         rest = _explore_phase(rep, harness, exe, scenarios, bound, pb, dpoints, deadline, horizon, classify, jobs, chunk, extra_replay, por)
